@@ -6,7 +6,7 @@ import Anko.Proofs.EvalPoll
 set_option linter.unusedSectionVars false
 
 namespace Anko
-variable [FOps]
+variable [FOps] [Prov]
 
 /-- runVMFunc's starting state: fresh scope under the captured scope with the parameters bound,
 fresh rv / err / defers -/
